@@ -21,6 +21,16 @@
       literal array operand (C04's S1 analysis, discharged by case split);
   K6  the predicate's verdict is taken through the shared truthiness (C06).
 Not decided: duality laws as value statements beyond these shapes.
+
+Readers (DESIGN §2 E2b): K1 is read from the decision cases of `none` (and of `some` when both delegate to a shared
+core), on the program as written.  K2 and K3 are read from path summaries of the operator function under each kind case;
+only the literal operand and the value its evaluation returned get a kind, both looked at through value-preserving
+plumbing (`?`, the faithful conversion, clone, deref, Cow).  K4 reads a fold by its seed and decided constant, a loop by
+the paths of one iteration (verdict on exit / on going on / at exhaustion), a lazy adaptor by what consumes it, and the
+closure handed to any / all / find_map by its decision cases.  K5 follows a function value chosen per case.  K6 also
+asks that every per-element verdict that is not the decided constant is truthy(predicate(element)).  When the
+function bound to an operator delegates the iteration to private helpers, the same clauses are read on the view of the
+program with those helpers inlined at their call sites (rules/inline.py).
 """
 import re
 from .core import (callee_of, callee_path, strip_refs, strip_payload, show_expr, const_value, expr_mentions, op_const, edge_dominates, bool_edge)
@@ -640,6 +650,46 @@ def loop_reading(ctx, roles, name, cfg, root, ps, abi, tkeys, seed_want, decided
     return zero
 
 
+def consumer_decisions(ctx, roles, name, cfg, root, seed_want, decided_want):
+    """K4 under a short-circuiting std consumer: what the closure answers decides whether the walk goes on.  Read from
+    the closure's decision cases; only positive evidence is reported: `any` goes on after `false`, `all` after `true`,
+    `find_map` after `None` — a failed evaluation, or the deciding verdict, must not be answered that way."""
+    facts = roles.facts
+    for bi, t in root.calls():
+        m = re.search(r"(Iterator::|Iterator>::)(any|all|find_map)$", callee_path(t) or "")
+        if not m or len(t["args"]) < 2:
+            continue
+        ce = strip_refs(root.trace(t["args"][1]))
+        if not (ce[0] == "agg" and ce[1].get("closure")):
+            continue
+        cb = facts.body(ce[1]["closure"])
+        cases = optnorm.decision_cases(facts, cb) if cb is not None else None
+        if not cases:
+            continue
+        meth = m.group(2)
+        bad = []
+        for conds, v, _q in cases:
+            x = strip_refs(v)
+            if meth == "find_map":
+                goes_on = x[0] == "agg" and x[1].get("variant") == "None"
+            else:
+                bv = bool_of(facts, v)
+                goes_on = bv is (meth == "all")
+            if not goes_on:
+                continue
+            failed = [k for k, val in conds.items() if k[0] == "variant" and val == "Err"]
+            if failed:
+                bad.append("after an element whose evaluation failed")
+            verdicts = [val for k, val in conds.items() if k[0] in ("expr", "site", "pure") and isinstance(val, bool) and ("Ok" in str(k[1]) or "payload" in str(k[1]) or k[0] == "site")]
+            if meth == "find_map" and verdicts and all(val is decided_want for val in verdicts):
+                bad.append("after an element whose verdict is %s" % decided_want)
+        key = "%s: Iterator::%s goes on only after a non-deciding, successful element (%s)" % (name, meth, cfg)
+        if bad:
+            ctx.fail("K4.consumer-decision", key, "%s: under Iterator::%s the walk goes on %s" % (name, meth, "; ".join(sorted(set(bad)))), where=root.where(bi), fn=root.key)
+        else:
+            ctx.ok("K4.consumer-decision", key, nontrivial=True)
+
+
 def run(ctx):
     ctx.explanation = __doc__
     ctx.rule = "instances = negation decision cases, 11 collection cases × 2 operators (path summaries), emptiness/short-circuit path facts, provenance sinks; non-trivial = path summaries under kind cases, dominance, path existence"
@@ -656,7 +706,7 @@ def run(ctx):
         sub = Ctx(ctx.prop, ctx.tier, ctx.level)
         analyse(sub, cfg, facts, raw, bool(ctx.inline_set))
         safe = [re.compile(x) for x in INLINE_SAFE]
-        if sub.viol and not ctx.inline_set and all(any(x.search(v["clause"]) for x in safe) for v in sub.viol):
+        if not ctx.inline_set and any(any(x.search(v["clause"]) for x in safe) for v in sub.viol):
             # The iteration is not in the function bound to the operator but in private helpers it calls.  Read the
             # view of the program in which every private helper reachable from the three operators (without going
             # through the interpreter) stands at its call sites: the same program, with the facts where the clauses
@@ -709,24 +759,30 @@ def analyse(ctx, cfg, facts, raw_facts, is_view):
             if core is not None:
                 other = sorted({callee_path(x.term) for x in Unit(r, nb.key).calls(lambda cc: cc["local"] and cc.get("key") != core)})
                 c.check(not other, "K1.nothing-else", "none computes nothing itself (%s)" % cfg, "none also calls %s" % other, where=nb.where(), fn=nb.key)
-        done = False
         if is_view:
             # "which function does none call, with what, and what does it do with the result" is a statement about the
             # program as written; a helper-inlined view is the same program, so the clause holds if it holds on either
-            try:
-                from .engine import Ctx
+            from .engine import Ctx
+            subs = []
+            for fx in (raw_facts, facts):
                 sub = Ctx(ctx.prop, ctx.tier, ctx.level)
-                raw = Roles(raw_facts)
-                FACTS[0] = raw.facts
-                k1(sub, raw)
+                try:
+                    FACTS[0] = fx
+                    k1(sub, roles if fx is facts else Roles(fx))
+                except Inconclusive:
+                    continue
+                finally:
+                    FACTS[0] = facts
+                subs.append(sub)
                 if not sub.viol and not sub.undecided:
-                    ctx.obls.extend(sub.obls)
-                    ctx.nontrivial |= sub.nontrivial
-                    done = True
-            except Exception:
-                done = False
-            FACTS[0] = facts
-        if not done:
+                    break
+            pick = next((x for x in subs if not x.viol and not x.undecided), subs[0] if subs else None)
+            ctx.need(pick is not None, "none: the negation was not read")
+            ctx.obls.extend(pick.obls)
+            ctx.viol.extend(pick.viol)
+            ctx.undecided.extend(pick.undecided)
+            ctx.nontrivial |= pick.nontrivial
+        else:
             k1(ctx, roles)
         ctx.check(some_e.num == none_e.num == all_e.num, "K1.arity", "all/some/none share the arity (%s)" % cfg, "arities differ", where=none_b.where())
 
@@ -741,6 +797,7 @@ def analyse(ctx, cfg, facts, raw_facts, is_view):
             bad_ad = [callee_path(s.term) for s in u.calls_path(REORDER.pattern)]
             ctx.check(not bad_ad, "K4.in-order", "%s walks the collection front to back, every element (no reversing / skipping / truncating adaptor) (%s)" % (name, cfg),
                       "%s applies %s to the collection: the first deciding element is no longer the first in order" % (name, bad_ad), where=b.where(), fn=b.key, nontrivial=True)
+            consumer_decisions(ctx, roles, name, cfg, b, seed_want, decided_want)
             pes = per_element_sites(roles, p, u, 1)
             ctx.check(len(pes) >= 1, "K4.predicate-site", "%s evaluates the predicate per element (%s)" % (name, cfg), "no per-element predicate evaluation", where=b.where(), fn=b.key)
             if not pes or not colls:
